@@ -280,6 +280,14 @@ def run_case(case, policy=None, max_steps=20000):
                                                 # about the callbacks AT this event — see design_notes, "limits";
                                                 # for the same reason updateLock does not yield when it is released)
             io.addCallback('is_connected', on_isconn)
+            real_announce = io.announceUpdate
+
+            def announce(pname, value=None, err=None, *a, **k):     # observed from outside: an update is_connected=True
+                r = real_announce(pname, value, err, *a, **k)        # that did not take effect (no connection any more)
+                if pname == 'is_connected' and value and err is None and not io.parameters['is_connected'].value:
+                    log.add('drop')
+                return r
+            io.announceUpdate = announce
             for name in case.get('callbacks') or ():
                 keep = not name.startswith('once')      # a callback returning False is removed after its first run
                 io.registerReconnectCallback(
@@ -452,7 +460,7 @@ def model_events(case, events):
             out.append([t, 'isconn', c, ev['v']])
         elif e == 'cb':
             out.append([t, 'cb', c, cbs.index(ev['name']) if ev['name'] in cbs else CB_TRIGGER, ev['keep']])
-        elif e in ('acq', 'rel', 'wake', 'flush', 'hclose', 'busy'):
+        elif e in ('acq', 'rel', 'wake', 'flush', 'hclose', 'busy', 'drop'):
             out.append([t, e, c])
         elif e == 'slp':
             out.append([t, 'slp', c, ev['d']])
@@ -845,6 +853,8 @@ def run(ctx):
         res.count('mode.' + case['mode'])
         res.count('callers=%d' % len(case['callers']))
         res.count('fault.detected' if fault else 'fault.none')
+        if 'drop' in kinds:
+            res.count('update.outdated_true_discarded')
         for f in case.get('faults', []):
             res.count('script.' + f)
         nerr = sum(1 for e in evs if e['e'] == 'ret' and not isinstance(e['r'], list))
